@@ -87,7 +87,24 @@ fn rng_structure(trace: &[merlin::observe::Event], wit: &Wit) -> Vec<String> {
 }
 
 fn run_prover(cfg: &Cfg, wit: &Wit, ctx: &Ctx, pc: &PedersenGens<F>, fault: &str) -> Result<RunOut, String> {
-    let built = build_with_pc::<F>(cfg, wit, pc.clone()).map_err(|e| crate::api::err_name(&e))?;
+    run_prover_edit(cfg, wit, None, ctx, pc, fault)
+}
+
+/// `first`: the witness object is first initialised (and used once) for the opening `first`, then its public `openings`
+/// field is overwritten in place with `wit`'s openings before the observed run
+fn run_prover_edit(cfg: &Cfg, wit: &Wit, first: Option<&Wit>, ctx: &Ctx, pc: &PedersenGens<F>, fault: &str) -> Result<RunOut, String> {
+    let mut built = build_with_pc::<F>(cfg, wit, pc.clone()).map_err(|e| crate::api::err_name(&e))?;
+    if let Some(w0) = first {
+        let mut witness = witness_for(w0).map_err(|e| crate::api::err_name(&e))?;
+        let st0 = build_with_pc::<F>(cfg, w0, pc.clone()).map_err(|e| crate::api::err_name(&e))?;
+        let mut t = ctx.transcript();
+        let _ = catch(|| F::prove(&mut t, &st0.statement, &witness, &mut fault_rng(fault)));
+        let fresh = witness_for(wit).map_err(|e| crate::api::err_name(&e))?;
+        for (slot, o) in witness.openings.iter_mut().zip(fresh.openings.iter()) {
+            *slot = o.clone();
+        }
+        built.witness = witness;
+    }
     merlin::observe::start();
     let r = catch(|| lib_prove(&built, ctx, &mut fault_rng(fault)));
     let trace = merlin::observe::take();
@@ -230,7 +247,12 @@ fn hedge_case(cfg: Cfg, seeded: bool, fault: &'static str) -> Box<dyn Case> {
         for pair in pairs(&cfg, seeded) {
             res.transitions += 1;
             let ra = run_prover(&pair.a.0, &pair.a.1, &pair.a.2, &pair.a.3, fault);
-            let rb = run_prover(&pair.b.0, &pair.b.1, &pair.b.2, &pair.b.3, fault);
+            // same-commitment pairs: the second run reuses the first run's witness object, edited in place
+            let rb = if pair.same_public {
+                run_prover_edit(&pair.b.0, &pair.b.1, Some(&pair.a.1), &pair.b.2, &pair.b.3, fault)
+            } else {
+                run_prover(&pair.b.0, &pair.b.1, &pair.b.2, &pair.b.3, fault)
+            };
             let ra2 = run_prover(&pair.a.0, &pair.a.1, &pair.a.2, &pair.a.3, fault);
             res.executions += 3;
             let (ra, rb, ra2) = match (ra, rb, ra2) {
@@ -254,9 +276,18 @@ fn hedge_case(cfg: Cfg, seeded: bool, fault: &'static str) -> Box<dyn Case> {
             if ra.bytes != ra2.bytes {
                 res.violate(format!("{}/reproducible", pair.name), "two identical runs under the same RNG fault gave different proofs");
             }
-            // at least the two final masking scalars must have been observed, else the observation seam is broken
+            // the two final masking scalars always come from the transcript RNG (with or without a seed): a run in which
+            // the transcript RNG handed out nothing means they came from somewhere else
             if ra.rng_scalars.len() < 2 || rb.rng_scalars.len() < 2 {
-                res.machinery_error(format!("{}: only {} RNG-derived scalars observed", pair.name, ra.rng_scalars.len()));
+                res.violate(
+                    format!("{}/final-masks-source", pair.name),
+                    format!(
+                        "the transcript RNG handed out {} scalar(s) during a {} prove: the two final masking scalars are not drawn from the witness- and transcript-keyed RNG",
+                        ra.rng_scalars.len().min(rb.rng_scalars.len()),
+                        if seeded { "seeded" } else { "unseeded" }
+                    ),
+                );
+                continue;
             }
             // all-pairs: the two runs share no RNG-derived nonce
             let set_a: BTreeSet<[u8; 32]> = ra.rng_scalars.iter().map(|s| s.to_bytes()).collect();
